@@ -35,7 +35,9 @@ def run_oracle(impl, programs, tag):
     root = core.SCRATCH_ROOT / 'tmp' / ('e1_%s_%d' % (tag, os.getpid()))
     root.mkdir(parents=True, exist_ok=True)
     nw = min(core.NCPU, max(1, len(programs) // 8))
-    parts = [programs[i::nw] for i in range(nw)]
+    # batches small enough that one of them finishes well inside its time limit on a loaded machine
+    nparts = max(nw, -(-len(programs) // 250))
+    parts = [programs[i::nparts] for i in range(nparts)]
 
     def attempt(k):
         env = core.impl_env(impl, LD_PRELOAD=str(SHIM), VCLOCK_TICK='0')
@@ -63,13 +65,13 @@ def run_oracle(impl, programs, tag):
             raise RuntimeError('oracle worker failed twice: %r / %r' % (first, e))
     try:
         with ThreadPoolExecutor(max_workers=nw) as ex:
-            res = list(ex.map(one, range(nw)))
+            res = list(ex.map(one, range(nparts)))
     finally:
         shutil.rmtree(root, ignore_errors=True)
     out = [None] * len(programs)
-    for k in range(nw):
+    for k in range(nparts):
         for j, r in enumerate(res[k]):
-            out[k + j * nw] = r
+            out[k + j * nparts] = r
     return out
 
 
